@@ -59,5 +59,7 @@ func main() {
 		smoke()
 	case "scn":
 		os.Exit(scnCmd(os.Args[2:]))
+	case "keytree":
+		os.Exit(keytreeCmd(os.Args[2:]))
 	}
 }
